@@ -91,6 +91,14 @@ def run(ctx):
                   "script": [{"op": "adopt", "p": "a1"}, {"op": "adopt", "p": "t1"}, {"op": "accept"}, {"op": "wait_running"}, {"op": "wait_start", "p": "a1"}, {"op": "wait_start", "p": "t1"},
                              {"op": "park", "point": "t.reg.call"}, {"op": "adopt", "p": "late", "ctx": "payload:a1"}, {"op": "wait_park", "point": "t.reg.call"}, {"op": "execute", "p": "x1p", "ctx": "payload:t1", "how": "val:x"},
                              {"op": "release", "point": "t.reg.call"}, {"op": "step", "p": "a1"}, {"op": "step", "p": "t1"}], "shape": "targeted-adopt-vs-execute"})
+    # adopt() in the instant between the runners having been closed (the runner table is
+    # cleared) and accept() returning: forced by parking the main thread right after
+    # _aclose_runners
+    for late in scen.FLAVS:
+        extra.append({"seed": ctx.seed, "jitter": 0.0, "payloads": {"f": {"flavour": "threading"}, "a1": {"flavour": "asyncio", "cleanup": 1}, "late": {"flavour": late}},
+                      "script": [{"op": "adopt", "p": "f"}, {"op": "adopt", "p": "a1"}, {"op": "accept"}, {"op": "wait_running"}, {"op": "wait_start", "p": "f"}, {"op": "wait_start", "p": "a1"},
+                                 {"op": "park", "point": "mr.aclose.end"}, {"op": "end", "p": "f", "how": "exc:UserExc"}, {"op": "wait_park", "point": "mr.aclose.end"},
+                                 {"op": "adopt", "p": "late", "ctx": "thread"}, {"op": "release", "point": "mr.aclose.end"}, {"op": "wait_end"}], "shape": "targeted-adopt-after-runners-cleared"})
     first = True
     for allow, ss in groups.items():
         scen.run_family(ctx, ss, names=NAMES, allow=allow, mc_invariants=["AtMostOnce", "AdoptReturnsNone", "DiscardOnlyWhenShuttingDown"], mc_properties=["ExactlyOnceLive"], per_shape=14 if thorough else 4, depth=40, label="c03" + "".join(a[:2] for a in allow), extra_scenarios=(extra if first else ()))
